@@ -65,7 +65,11 @@ func (x *Executor) Become(stdin *os.File, environ []string, command string) {
 	}
 	args := append([]string{shellPath}, append(x.args, command)...)
 	SetStdin(stdin)
-	syscall.Exec(shellPath, args, environ)
+	// Exec only returns when it fails, e.g. when the command is too long. The
+	// user interface is already gone at this point.
+	err = syscall.Exec(shellPath, args, environ)
+	fmt.Fprintf(os.Stderr, "fzf (become): %s\n", err.Error())
+	os.Exit(126)
 }
 
 // KillCommand kills the process for the given command
